@@ -747,3 +747,54 @@ def synth_connectivity_cases(rng, n=300, maxlen=14, flavour="asan"):
         c = Case(op, model=op, expect=expect, oracle=oracle, flavour=flavour, tags=("eb-synth",))
         out.append(c)
     return out
+
+
+# ------------------------------------------------------------------ every tiny mesh (encoder / decoder header checks)
+
+_TET = [(0, 1, 2), (0, 3, 1), (1, 3, 2), (2, 3, 0)]
+_OCT = [(0, 1, 2), (0, 2, 3), (0, 3, 4), (0, 4, 1), (5, 2, 1), (5, 3, 2), (5, 4, 3), (5, 1, 4)]
+_BIP = [(0, 1, 3), (1, 2, 3), (2, 0, 3), (1, 0, 4), (2, 1, 4), (0, 2, 4)]
+
+
+def tiny_mesh_cases(rng, tier="thorough"):
+    """EVERY triangle list of at most 4 faces over at most 5 vertex ids (both orientations, duplicates, every order
+    of the vertex set up to relabelling: 8747 meshes) and stacks of small closed components (k tetrahedra / octahedra /
+    bipyramids, disjoint or sharing a vertex or an edge non-manifoldly), encoded with the Edgebreaker method and decoded:
+    the decoder's header checks (`num_faces <= symbols + symbols/3`: every component whose start face is "interior"
+    contributes a face without a symbol, `num_faces >= symbols`, the vertex/edge count test) must never reject what the
+    encoder wrote.  The ad-hoc run behind this family (notes/eb.md, follow-up 5) covered every mesh of <= 8 faces over 5
+    ids, <= 6 over 6, <= 5 over 7, <= 4 over 8 at three speeds (36 million meshes): none rejected.  quick: a sample."""
+    import itertools
+    tris = []
+    for a, b, c in itertools.combinations(range(5), 3):
+        tris += [(a, b, c), (a, c, b)]
+    meshes = []
+    for nf in range(1, 5):
+        for faces in itertools.combinations_with_replacement(range(len(tris)), nf):
+            fl = [tris[i] for i in faces]
+            used = sorted({v for t in fl for v in t})
+            if used == list(range(len(used))):
+                meshes.append((len(used), fl, "enumerated"))
+    if tier != "thorough":
+        meshes = rng.sample(meshes, 150)
+
+    def shift(fs, k, share=()):
+        return [tuple(v if v in share else v + k for v in t) for t in fs]
+    for k in (1, 2, 3, 5, 9, 17) if tier == "thorough" else (2, 5):
+        for share in ((), (0,), (0, 1)):
+            fl = list(_TET)
+            for i in range(1, k):
+                fl += shift(rng.choice([_TET, _TET, _OCT, _BIP]), 10 * i, share)
+            used = sorted({v for t in fl for v in t})
+            m = {v: i for i, v in enumerate(used)}
+            fl = [tuple(m[v] for v in t) for t in fl]
+            if rng.random() < 0.5:
+                rng.shuffle(fl)
+            meshes.append((len(used), fl, f"closed_components:{k}:shared{len(share)}"))
+    out = []
+    for nv, fl, fam in meshes:
+        g = build(rng, abstract(rng, nv, fl), pos_dtype="f32")
+        sp = rng.choice([0, 5, 10])
+        toks, info = options(rng, g, speed=sp, submethod=rng.choice([0, 0, 2]), quant=rng.random() < 0.5)
+        out.append(make(g, toks, info, ("topo:tiny_" + fam.split(":")[0], "tiny:" + fam, f"faces:{len(fl)}", f"speed:{sp}")))
+    return out
